@@ -266,12 +266,15 @@ theorem sugar_spec_all (w : World) (cs : ClassTable) : ∀ e, SugarSpec w cs e :
       split at h
       · -- data-class constructor: the original `Constant(cls)(…)` has no meaning under `ev`
         have hdict : ∃ ks vs, e' = .dict ks vs := by
-          unfold convertCallToDict at h
+          unfold convertCall at h
           split at h
           · cases h
-          · split at h
+          · unfold convertCallToDict at h
+            split at h
             · cases h
-            · simp only [Except.ok.injEq] at h; exact ⟨_, _, h.symm⟩
+            · split at h
+              · cases h
+              · simp only [Except.ok.injEq] at h; exact ⟨_, _, h.symm⟩
         obtain ⟨dk, dv, rfl⟩ := hdict
         refine ⟨?_, ?_, ?_⟩
         · intro env v hv
@@ -381,6 +384,32 @@ theorem surplus_args_refused (names : List String) (args : List Expr) (kwn : Lis
     (h : names.length < args.length + kwn.length) :
     ∃ t, convertCallToDict names args kwn kwv = .error (.valueError t) := by
   simp [convertCallToDict, h]
+
+/-- more positional arguments than parameters that can be bound by position (the rest are keyword-only): refused, as
+    Python's constructor refuses them -/
+theorem surplus_positional_refused (names : List String) (args : List Expr) (kwn : List String) (kwv : List Expr)
+    (h : ctorPositional names < args.length) :
+    ∃ t, convertCall names args kwn kwv = .error (.valueError t) := by
+  simp [convertCall, h]
+
+/-- without keyword-only parameters the check changes nothing -/
+theorem convertCall_plain (names : List String) (args : List Expr) (kwn : List String) (kwv : List Expr)
+    (h : names.contains "*" = false) (hlen : args.length ≤ names.length) :
+    convertCall names args kwn kwv = convertCallToDict names args kwn kwv := by
+  have hf : ∀ (l : List String), l.contains "*" = false → l.filter (· != "*") = l ∧ l.takeWhile (· != "*") = l := by
+    intro l
+    induction l with
+    | nil => intro _; exact ⟨rfl, rfl⟩
+    | cons a l ih =>
+      intro hl
+      simp only [List.contains_cons, Bool.or_eq_false_iff, beq_eq_false_iff_ne, ne_eq] at hl
+      obtain ⟨h1, h2⟩ := ih hl.2
+      have ha : (a != "*") = true := by simpa using fun h => hl.1 h.symm
+      simp [List.filter, List.takeWhile, ha, h1, h2]
+  obtain ⟨h1, h2⟩ := hf names h
+  simp only [convertCall, ctorPositional, ctorNames, h1, h2]
+  have : ¬ names.length < args.length := by omega
+  simp [this]
 
 theorem unknown_keyword_refused (names : List String) (args : List Expr) (kwn : List String) (kwv : List Expr)
     (k : String) (hk : k ∈ kwn) (hn : names.contains k = false) :
